@@ -208,14 +208,14 @@ func init() {
 		Families: func(tier string) []Family {
 			fams := advFamilies(tier, advCfg{txVariants: []string{"ok"}, annVariants: []string{"ok", "inv_cltv_max+1", "inv_cltv_neg"}, cltvs: []int64{28, 31}},
 				scn.Flags{Blocks: true, Time: true, Restart: true, MaxTime: 3, MaxBlocks: 4, NoCsvJump: true},
-				mc.Bounds{MaxDepth: 9, MaxDev: 2, Budget: 100 * time.Second, CrashAfterStore: true},
+				mc.Bounds{MaxDepth: 9, MaxDev: 2, Budget: 100 * time.Second, CrashAfterStore: true, NoCrashFirst: true},
 				mc.Bounds{MaxDepth: 11, MaxDev: 3, Budget: 14 * time.Minute}, bothBack)
 			// pay-loop families: the first attempt fails (or hangs), so that the node rests in
 			// its paying state while blocks arrive and restarts happen
 			loop := advFamilies(tier, advCfg{txVariants: []string{"ok"}, annVariants: []string{"ok"}},
 				scn.Flags{Blocks: true, Time: true, Restart: true, PayPlan: true, PayKinds: []world.PayOutcome{world.PayFail, world.PayPendingErr}, MaxTime: 3, MaxBlocks: 4, NoCsvJump: true,
 					Lag: true, Faults: []string{"lbtc.getblockcount"}},
-				mc.Bounds{MaxDepth: 7, MaxDev: 3, Budget: 50 * time.Second, CrashAfterStore: true},
+				mc.Bounds{MaxDepth: 7, MaxDev: 3, Budget: 50 * time.Second, CrashAfterStore: true, NoCrashFirst: true},
 				mc.Bounds{MaxDepth: 9, MaxDev: 4, Budget: 8 * time.Minute}, bothBack)
 			fams = append(fams, payLoopStart(loop)...)
 			var out []Family
@@ -248,11 +248,11 @@ func init() {
 		Families: func(tier string) []Family {
 			fams := advFamilies(tier, advCfg{txVariants: []string{"ok"}, annVariants: []string{"ok", "inv_cltv_max+1"}, cltvs: []int64{0, 1, 502, 505}},
 				scn.Flags{Blocks: true, Time: true, Restart: true, MaxTime: 3, MaxBlocks: 4, NoCsvJump: true, BlocksAlways: true},
-				mc.Bounds{MaxDepth: 9, MaxDev: 2, Budget: 100 * time.Second, CrashAfterStore: true},
+				mc.Bounds{MaxDepth: 9, MaxDev: 2, Budget: 100 * time.Second, CrashAfterStore: true, NoCrashFirst: true},
 				mc.Bounds{MaxDepth: 11, MaxDev: 3, Budget: 14 * time.Minute}, bothBack)
 			loop := advFamilies(tier, advCfg{txVariants: []string{"ok"}, annVariants: []string{"ok"}},
 				scn.Flags{Blocks: true, Time: true, Restart: true, PayPlan: true, PayKinds: []world.PayOutcome{world.PayFail, world.PayPendingErr}, MaxTime: 3, MaxBlocks: 4, NoCsvJump: true, BlocksAlways: true},
-				mc.Bounds{MaxDepth: 7, MaxDev: 3, Budget: 50 * time.Second, CrashAfterStore: true},
+				mc.Bounds{MaxDepth: 7, MaxDev: 3, Budget: 50 * time.Second, CrashAfterStore: true, NoCrashFirst: true},
 				mc.Bounds{MaxDepth: 9, MaxDev: 4, Budget: 8 * time.Minute}, bothBack)
 			fams = append(fams, payLoopStart(loop)...)
 			var out []Family
